@@ -14,7 +14,7 @@ From Coq Require Import String ZArith List Bool Lia Ring Field Reals.
 From Flocq Require Import Core BinarySingleNaN.
 Require IBL.C09.Model IBL.C09.Proofs.
 Import IBL.C09.Model IBL.C09.Proofs.
-From IBL.C16 Require Import Model Proofs Sweep Range RangeProofs Ulp Compare.
+From IBL.C16 Require Import Model Proofs Sweep SweepP Range RangeProofs Ulp Compare.
 Import ListNotations.
 Open Scope Z_scope.
 
@@ -134,6 +134,29 @@ Theorem C16_slew_comparison_is_nonstrict_real :
   (i_ge_vv p e a b = true <-> (B2R a >= B2R b)%R).
 Proof. exact pub_ge_vv_real. Qed.
 Print Assumptions C16_slew_comparison_is_nonstrict_real.
+
+(* Two-decimal proportions p = 0.01 .. 0.99 (the float64 literal fl(j/100)) at every channel
+   count nc <= 400 for which p * nc is a whole number (1680 pairs): for EVERY count k the
+   source's mean-form test  fl(k/nc) > p  equals the exact rational comparison  k/nc > j/100 ;
+   in particular a sample with EXACTLY the proportion of offending channels is not flagged. *)
+Theorem C16_two_decimal_proportions_exact_at_whole_boundaries :
+  forall j nc k, 1 <= j <= 99 -> 1 <= nc <= 400 -> (j * nc) mod 100 = 0 -> 0 <= k <= nc ->
+  mean_form k nc (pj j) = (j * nc <? 100 * k).
+Proof. exact pub_two_decimal_boundary. Qed.
+Print Assumptions C16_two_decimal_proportions_exact_at_whole_boundaries.
+
+(* The rewrite  np.sum(mask) > proportion * nc  (count form) is NOT equivalent: among those
+   1680 pairs it decides differently from the mean form at k = p*nc on exactly these 25
+   (fl(p * nc) falls just below the integer, e.g. 0.29 * 100 = 28.999999999999996), and on
+   each of them it flags a sample with exactly the proportion of channels. *)
+Theorem C16_count_form_differs_on_25_pairs :
+  pairs_eqb (filter disagree boundary_pairs) disagreeing_pairs = true /\
+  length disagreeing_pairs = 25%nat /\
+  forallb (fun q => let '(j, nc) := q in
+                    count_form (j * nc / 100) nc (pj j) && negb (mean_form (j * nc / 100) nc (pj j)))
+          disagreeing_pairs = true.
+Proof. split; [exact disagree_sweep|split; [reflexivity|exact disagree_direction]]. Qed.
+Print Assumptions C16_count_form_differs_on_25_pairs.
 
 (* Unknown full scale.  Reader.range_volts of a recording opened WITHOUT metadata is
    sample2volts * nan; with a NaN range the amplitude test of that channel is false for
